@@ -43,10 +43,11 @@ Qed.
 Lemma proj_app : forall t l1 l2, proj t (l1 ++ l2) = proj t l1 ++ proj t l2.
 Proof. intros. unfold proj. apply filter_app. Qed.
 
-Lemma proj_own : forall t cn l, own t cn l -> proj t l = l.
+Lemma proj_own : forall t cn l, own t cn l -> noretry l -> proj t l = l.
 Proof.
-  intros t cn l H. unfold proj. induction H as [|e l [He _] _ IH]; [reflexivity|].
-  cbn. rewrite He, Nat.eqb_refl, IH. reflexivity.
+  intros t cn l H. unfold proj. induction H as [|e l [He _] _ IH]; intros Hn; [reflexivity|].
+  apply Forall_cons_iff in Hn. destruct Hn as [Hn1 Hn2].
+  cbn. rewrite He, Nat.eqb_refl, Hn1, (IH Hn2). reflexivity.
 Qed.
 
 Lemma proj_other : forall t t' cn l, own t cn l -> t' <> t -> proj t' l = [].
@@ -55,11 +56,21 @@ Proof.
   cbn. rewrite He. destruct (Nat.eqb t t') eqn:E; [apply Nat.eqb_eq in E; congruence | exact IH].
 Qed.
 
-Lemma own_proj : forall t l, Forall (fun e => etid e = t) (proj t l).
+Lemma proj_retries : forall t t' R, retries t R -> proj t' R = [].
 Proof.
-  intros t l. unfold proj. apply Forall_forall. intros e He. apply filter_In in He.
-  destruct He as [_ He]. apply Nat.eqb_eq in He. exact He.
+  intros t t' R H. unfold proj. induction H as [|e R [_ He] _ IH]; [reflexivity|].
+  cbn. rewrite He. cbn. rewrite andb_false_r. exact IH.
 Qed.
+
+Lemma count_retries_zero : forall (p : logent -> bool) t R,
+  (forall e, ecall e = CBeginRetry -> p e = false) -> retries t R -> count p R = 0%nat.
+Proof.
+  intros p t R Hp H. unfold count. induction H as [|e R [_ He] _ IH]; [reflexivity|].
+  cbn. rewrite (Hp _ He). exact IH.
+Qed.
+
+Lemma retries_tid : forall t R n, retries t R -> (t < n)%nat -> Forall (fun e => (etid e < n)%nat) R.
+Proof. intros t R n H Hn. eapply Forall_impl; [|exact H]. cbn. intros e [He _]. rewrite He. exact Hn. Qed.
 
 (* ---- the invariant of the world ------------------------------------------------------- *)
 (* connections held by open transactions, per connection *)
@@ -174,27 +185,31 @@ Proof.
   destruct (nth_error (wthreads w) t) as [th|] eqn:Ht; [|exact G].
   destruct (tstep_with rf g t (tsc th) (tst th) (worc w)) as [[[st' l] orc'] leak] eqn:Es.
   destruct (g_threads _ _ _ _ _ G t th Ht) as [Hinv Hconn].
-  destruct (tstep_spec _ _ _ _ _ _ _ _ _ _ _ Hinv Es) as (Hinv' & Hown & Hfol & Hleak).
+  destruct (tstep_spec _ _ _ _ _ _ _ _ _ _ _ Hinv Es) as (R & l' & -> & HR & Hinv' & Hown & Hfol & Hleak).
+  pose proof (tinv_noretry _ _ _ _ _ Hinv') as Hnr. apply Forall_app in Hnr. destruct Hnr as [_ Hnr].
   set (inuse := if is_done st' && negb (is_done (tst th))
                 then count_open (set_nth t (mkThread (tsc th) st' (tinuse th)) (wthreads w)) +
                      (wleaks w + (if leak then 1 else 0))
                 else tinuse th).
   assert (Hlen : (t < length scs)%nat).
   { rewrite <- (g_scripts _ _ _ _ _ G), map_length. apply nth_error_Some. congruence. }
-  assert (Hconn' : Forall (fun e => econn e = sconn (tsc th)) (proj t (wlog w) ++ l)).
+  assert (Hconn' : Forall (fun e => econn e = sconn (tsc th)) (proj t (wlog w) ++ l')).
   { apply Forall_app. split; [exact Hconn | eapply own_conn; exact Hown]. }
   constructor; cbn [wthreads wlog worc wleaks].
   - intros t' th' H'. destruct (Nat.eq_dec t t') as [<- | Hne].
     + rewrite (nth_error_set_nth_eq _ _ _ _ _ Ht) in H'. inversion H'; subst th'. cbn [tsc tst].
-      rewrite proj_app, (proj_own _ _ _ Hown). split; assumption.
+      rewrite !proj_app, (proj_retries _ _ _ HR), (proj_own _ _ _ Hown Hnr). split; assumption.
     + rewrite (nth_error_set_nth_neq _ _ _ _ _ Hne) in H'.
-      rewrite proj_app, (proj_other _ _ _ _ Hown (not_eq_sym Hne)), app_nil_r.
+      rewrite !proj_app, (proj_retries _ _ _ HR), (proj_other _ _ _ _ Hown (not_eq_sym Hne)), app_nil_r.
       exact (g_threads _ _ _ _ _ G t' th' H').
   - rewrite (map_set_nth _ _ tsc t (mkThread (tsc th) st' inuse) th _ Ht eq_refl). exact (g_scripts _ _ _ _ _ G).
   - eapply follows_app; [exact (g_follows _ _ _ _ _ G) | exact Hfol].
   - rewrite count_app, Nat2Z.inj_add, <- (g_leaks _ _ _ _ _ G), <- Hleak. unfold leakZ. reflexivity.
-  - apply Forall_app. split; [exact (g_tids _ _ _ _ _ G) | eapply own_tid; eassumption].
+  - apply Forall_app. split; [exact (g_tids _ _ _ _ _ G)|].
+    apply Forall_app. split; [eapply retries_tid; eassumption | eapply own_tid; eassumption].
   - intros c. rewrite !count_app.
+    rewrite (count_retries_zero (fun e => on_conn c e && begun_ok e) t R), (count_retries_zero (fun e => on_conn c e && ent_end e) t R); auto;
+      try (intros e He; unfold begun_ok, ent_begin, ent_end; rewrite He; cbn; apply andb_false_r).
     pose proof (g_balance _ _ _ _ _ G c) as HB.
     pose proof (trace_balance _ _ _ _ _ c (tinuse th) Hinv Hconn) as H0.
     pose proof (trace_balance _ _ _ _ _ c inuse Hinv' Hconn') as H1.
@@ -215,18 +230,21 @@ Theorem exec_ginv : forall rf g scs sched orc, ginv rf g scs orc (exec_with rf g
 Proof. intros. unfold exec_with, exec_gen. apply (run_ginv rf g scs orc sched). apply init_ginv. Qed.
 
 (* ---- the script of the driver, read positionally --------------------------------------- *)
-Definition dflt : reply := mkReply OOk false.
+Definition dflt : reply := mkReply OOk false vgen.
 
 Lemma follows_nth : forall orc l orc',
   follows orc l orc' ->
   orc' = skipn (length l) orc /\
-  forall i e, nth_error l i = Some e -> eout e = honoured (ecall e) (rout (nth i orc dflt)).
+  forall i e, nth_error l i = Some e ->
+    eout e = honoured (ecall e) (rout (nth i orc dflt)) /\
+    eval e = val_of (ecall e) (eout e) (rval (nth i orc dflt)).
 Proof.
-  intros orc l orc' H. induction H as [orc | orc e l orc' He _ [IH1 IH2]].
+  intros orc l orc' H. induction H as [orc | orc e l orc' He Hv _ [IH1 IH2]].
   - split; [reflexivity|]. intros i e H. destruct i; discriminate.
   - split.
     + rewrite IH1. destruct orc; cbn; [destruct (length l); reflexivity | reflexivity].
     + intros i e' Hi. destruct i as [|i].
-      * cbn in Hi. inversion Hi; subst e'. rewrite He. destruct orc; reflexivity.
-      * cbn in Hi. rewrite (IH2 _ _ Hi). destruct orc as [|r orc]; cbn; [destruct i; reflexivity | reflexivity].
+      * cbn in Hi. inversion Hi; subst e'. rewrite He at 1. rewrite Hv. destruct orc; split; reflexivity.
+      * cbn in Hi. destruct (IH2 _ _ Hi) as [H1 H2]. rewrite H1 at 1. rewrite H2.
+        destruct orc as [|r orc]; cbn; [destruct i; split; reflexivity | split; reflexivity].
 Qed.
